@@ -140,6 +140,52 @@ class TeeCase(FnCase):
         return out
 
 
+class TeeWiring(FnCase):
+    """tee_map(*branches, join=...)(source): the source is published exactly once (also when it is itself a connectable, e.g. a tee_map
+    nested as first operator of a branch), every branch is applied to that one connectable, the join flags decode the join mode"""
+
+    def __init__(self, join, source_kind):
+        self.join = join; self.source_kind = source_kind
+        self.name = f'tee_map/wiring[join={join},source={source_kind}]'
+
+    def setup(self, eng, p):
+        self.eng = eng
+        f = eng.world.closure_of(MOD, 'tee_map')
+        self.applied = []
+        b0, b1 = Host('pipe', fns=[], name='branch0'), Host('pipe', fns=[], name='branch1')
+        (q, op), = eng.call(p, f, [b0, b1], {'join': self.join})
+        mux = self.source_kind != 'plain'
+        self.src = Host('source', is_mux=mux, is_connectable=(self.source_kind == 'mux-connectable'), name='source')
+        self.path = q
+        return op, [self.src], {}
+
+    def ensures(self, q, ret):
+        ok_kind = isinstance(ret, Host) and ret.kind == ('muxobservable' if self.source_kind != 'plain' else 'observable') and isinstance(ret.subscribe, Closure)
+        if not ok_kind:
+            return [('result_kind', BoolVal(False))]
+        sc = ret.subscribe.scope
+        env = {}
+        while sc is not None:
+            for nme, cid in sc.cells.items():
+                if cid in q.cells: env.setdefault(nme, q.cells[cid])
+            sc = sc.parent
+        conn = env.get('connectable'); srcs = env.get('sources')
+        def published_once(c):
+            inner = getattr(c, 'connectable', None) if self.source_kind != 'plain' else c
+            return isinstance(inner, Host) and getattr(inner, 'rxop', None) is not None and inner.rxop.name == 'publish' and inner.source is self.src
+        srcs_l = list(q.heap[srcs.oid][1]) if isinstance(srcs, Ref) else []
+        zf, cf = env.get('zip'), env.get('combine')
+        want = {'zip': (True, False), 'merge': (False, False), 'combine_latest': (False, True)}[self.join]
+        return [('source_published_exactly_once', BoolVal(published_once(conn))),
+                ('every_branch_gets_the_same_connectable', BoolVal(len(srcs_l) == 2 and all(s is conn for s in srcs_l))),
+                ('join_mode_decoded', BoolVal((zf, cf) == want))]
+
+
+def unit_tee_wiring(opts):
+    cases = [TeeWiring(j, k) for j in ('zip', 'merge', 'combine_latest') for k in ('mux', 'plain', 'mux-connectable')]
+    return run_cases('tee_map.wiring', cases, opts)
+
+
 def unit_tee_map(opts):
     n = opts.get('n', 2)
     join = opts.get('join', 'zip')
